@@ -213,13 +213,8 @@ func ItemFlags(w *load.World, c *core.Collector) {
 					continue
 				}
 				for _, in := range b.Instrs {
-					if call, ok := in.(*ssa.Call); ok {
-						if call.Call.IsInvoke() && call.Call.Method.Name() == method {
-							return true
-						}
-						if g := call.Call.StaticCallee(); g != nil && g.Name() == method {
-							return true
-						}
+					if callsNamed(in, method, 0) {
+						return true
 					}
 				}
 			}
@@ -239,7 +234,7 @@ func ItemFlags(w *load.World, c *core.Collector) {
 					// `IsDirty || CheckAndClearDirty()` is a short-circuit: WriteTo is behind either true edge
 					for _, bb := range f.Blocks {
 						for _, in := range bb.Instrs {
-							if call, ok := in.(*ssa.Call); ok && (call.Call.IsInvoke() && call.Call.Method.Name() == "WriteTo" || call.Call.StaticCallee() != nil && call.Call.StaticCallee().Name() == "WriteTo") {
+							if callsNamed(in, "WriteTo", 0) {
 								if ssax.Reaches(b.Succs[0], bb) {
 									wrOK = true
 								}
@@ -328,4 +323,34 @@ func dedupeSorted(xs []string) []string {
 		}
 	}
 	return out
+}
+
+// callsNamed: the instruction calls a method of that name, directly or inside a
+// helper of the same package that it calls (two levels).
+func callsNamed(in ssa.Instruction, method string, depth int) bool {
+	call, ok := in.(*ssa.Call)
+	if !ok {
+		return false
+	}
+	if call.Call.IsInvoke() && call.Call.Method.Name() == method {
+		return true
+	}
+	g := call.Call.StaticCallee()
+	if g == nil {
+		return false
+	}
+	if g.Name() == method {
+		return true
+	}
+	if depth >= 2 || !ssax.InModule(g) || load.PkgPath(g) != load.PkgPath(in.Parent()) {
+		return false
+	}
+	for _, b := range g.Blocks {
+		for _, gi := range b.Instrs {
+			if callsNamed(gi, method, depth+1) {
+				return true
+			}
+		}
+	}
+	return false
 }
